@@ -384,7 +384,7 @@ _WORD = re.compile(r'([A-Za-z][A-Za-z0-9_-]{2,})[ (:\[]')
 # what introduces a value in the text renderings (capabilities, attributes by their text name, BGP-LS TLV names)
 VOCABULARY = [
     'hostname(', 'software(', 'unknown capability', 'multiprotocol(', 'graceful restart', 'addpath', 'multisession',
-    'advisory "', 'node name:', 'link name:', 'opaque', 'bgp-ls', 'bgp-prefix-sid', 'attribute [', 'pmsi', 'tunnel-encap', 'aigp',
+    'advisory "', 'node name:', 'link name:', 'policy-name "', 'candidate-path-name "', 'opaque', 'bgp-ls', 'bgp-prefix-sid', 'attribute [', 'pmsi', 'tunnel-encap', 'aigp',
     'extended-community', 'large-community', 'community', 'as-path', 'aggregator', 'cluster-list', 'originator-id', 'origin',
     'local-preference', 'med', 'next-hop', 'label', 'rd ', 'path-information', 'flow', 'evpn', 'vpls', 'mup', 'mvpn', 'sr-policy', 'srv6',
 ]
@@ -408,12 +408,28 @@ def text_culprit(line: str, pos: int) -> str:
     return ''
 
 
+# the hostile engine knows which string it put where: its labels, under the names the vocabulary gives the same renderings
+CANON = {
+    'hostname': 'hostname',
+    'domainname': 'hostname',
+    'software-version': 'software',
+    'operational-advisory': 'advisory',
+    'bgpls-node-name': 'node-name',
+    'bgpls-link-name': 'link-name',
+    'sr-policy-name': 'policy-name',
+    'sr-candidate-path-name': 'candidate-path-name',
+}
+
+
 def non_ascii_culprit(string: str, taints: list | None = None) -> str:
     for line in string.split('\n'):
         for i, ch in enumerate(line):
             if ord(ch) > 127:
-                for t in taints or []:
-                    if ch in bytes.fromhex(t['hex']).decode('utf-8', 'replace'):
-                        return t['label']
+                texts = [(t['label'], bytes.fromhex(t['hex']).decode('utf-8', 'replace').lower()) for t in taints or []]
+                for width in (8, 4, 2, 1, 0):
+                    window = line[max(0, i - width) : i + 1].lower()
+                    hits = {CANON.get(label, label) for label, text in texts if window in text}
+                    if len(hits) == 1:
+                        return hits.pop()
                 return text_culprit(line, i)
     return ''
